@@ -38,7 +38,7 @@ CLAIMS["C18"] = dict(
          "from the source each run; model and implementation are compared on every string of <=3 (quick) / <=4 (thorough) "
          "tokens over a 32-token alphabet plus random/Unicode/mutated strings (tokens, parse tree, compiled selector, "
          "error class and offset); the implementation's exception class is checked for parse, select(env) and probe "
-         "creation/activation, including the refusals the property lists.",
+         "creation/activation, including the refusals the property lists, each under every probe_type.",
     design_ref="DESIGN.md section 5, C18",
     note="Modelled, not verified: Python's re engine (the three regexes are re-implemented by hand and validated by the "
          "correspondence), Unicode \\s/\\w classification (a parameter of the model), environment resolution in select() "
@@ -162,12 +162,15 @@ CLAIMS["C09"] = dict(
          "was, that the driver never runs inside a generator, that the installed overlays are exactly those entered and "
          "not yet left (an ended overlay is never re-installed), and that a generator body runs under the collection "
          "derived at its entry. Model and implementation are compared after every step of generated histories through "
-         "what fires for driver calls and generator segments (g > a, gen0 > g > a, gen1 > g > a per overlay); "
-         "HandlerCollection.current is compared before/after every generator operation.",
+         "what fires for driver calls and generator segments (g > a and genK > g > a per overlay, for ten kinds of "
+         "generators: plain yield; yield as the value of a binding, of a chained, annotated, walrus and augmented "
+         "assignment to a captured variable, inside an assignment target, inside the default of a nested def; yield "
+         "from a generator and from a list; a generator that swallows GeneratorExit); HandlerCollection.current is compared before/after every generator operation.",
     design_ref="DESIGN.md section 5, C09",
     note="The context value is abstracted to (installed overlays, generator activations the collection was derived "
-         "through). Generators suspended inside `yield from` (not rewritten by ptera) and gen.throw() are outside the "
-         "histories explored. Holds only after the fix commits a5e9710 and 9f3c432.",
+         "through). gen.throw() is outside the histories explored (not an operation of the property). Holds only after "
+         "the fix commits a5e9710, 9f3c432, 1267bb6 (F35: a generator suspended inside `yield from` leaked its "
+         "context) and the F37 repair (yields inside assignment targets and def / class headers).",
 )
 
 CLAIMS["C08"] = dict(
@@ -264,7 +267,9 @@ CLAIMS["C02"] = dict(
          "one event with the value bound when the name is captured and none otherwise (C02_one_event_per_binding, "
          "C02_no_event_when_not_captured, C02_rebinding_reports_current_value). " + TIE + "Oracle: probing(f(ctx...) > x) "
          "against the binding log of an independently rendered twin of the same program, for every choice of focus and "
-         "context variables.",
+         "context variables — also through a caller that calls the function twice (outer_w > f(ctx) > x: each call is "
+         "a call of its own) — and, first, on directed programs that bind the focus once at every position Python binds "
+         "a name (else clauses of loops, handlers, finally, with, walrus inside an augmented assignment, …).",
     design_ref="DESIGN.md section 5, C02",
     note=NOTE_M2 + "The context values carried by an event (latest value of the other captures) are the handler's "
          "business (M3, Props/C05/C07) and the twin oracle's.",
@@ -277,8 +282,10 @@ CLAIMS["C04"] = dict(
          "for ARBITRARY handlers, overriding ones included: the rewritten function behaves as the reference semantics in "
          "which the binding stores the handler's answer after evaluating the right-hand side once "
          "(C04_rewritten_is_substituted_program, C04_binding_stores_the_answer, C04_rhs_once_then_binding, "
-         "C04_declined_untouched). " + TIE + "Oracle: overriding probes (constant, context-dependent, conditional; nested "
-         "with plain probes) against the substituted twin program.",
+         "C04_declined_untouched; a closure variable is shown to the handler and never re-bound: "
+         "C04_closure_never_rebound). " + TIE + "Oracle: overriding probes (constant, context-dependent, conditional — "
+         "as a setter that declines and as a filtered stream —; nested with plain probes, through direct and call-path "
+         "selectors) against the substituted twin program.",
     design_ref="DESIGN.md section 5, C04",
     note=NOTE_M2,
 )
